@@ -147,6 +147,18 @@ def getUp (ws : List String) (k : String) : Bool := upOf (getStr ws k)
 def getU64 (ws : List String) (k : String) : UInt64 := UInt64.ofNat (getNat ws k)
 def getU32 (ws : List String) (k : String) : UInt32 := UInt32.ofNat (getNat ws k)
 
+/-- coins of an op line, `12apple,3ibc/7F1A` (`-` = none): the amount is the leading run of digits -/
+def parseCoinList (s : String) : List (Bytes × Nat) :=
+  (splitList s ",").filterMap fun c =>
+    let ds := c.toList.takeWhile Char.isDigit
+    let rest := c.toList.dropWhile Char.isDigit
+    match (String.ofList ds).toNat? with
+    | some n => if rest.isEmpty then none else some (rest.map Char.toNat, n)
+    | none => none
+
+def parseIds (s : String) : List UInt64 :=
+  (splitList s).map fun i => UInt64.ofNat ((parseNat? i).getD 0)
+
 def parseOp (ws : List String) : Option Op :=
   match ws with
   | "mkmarket" :: r => some (.mkMarket (getU32 r "id") (getStr r "name"))
@@ -162,6 +174,12 @@ def parseOp (ws : List String) : Option Op :=
   | "cancel" :: r => some (.cancel (getU64 r "id") (getAddr r "by") (getUp r "by"))
   | "setext" :: r => some (.setExt (getU32 r "m") (getU64 r "id") (strBz (getStr r "x")) (getAddr r "by"))
   | "settle" :: r => some (.settle (getU32 r "m") (getU64 r "a") (getU64 r "b") (getStr r "ep" = "1") (getAddr r "by"))
+  -- `fillbids`: the total is the assets (several denoms); `fillasks`: the total is ONE price coin
+  | "fillbids" :: r =>
+    some (.fill (getU32 r "m") true (getAddr r "by") (getUp r "by") (parseIds (getStr r "ids")) (parseCoinList (getStr r "t")))
+  | "fillasks" :: r =>
+    some (.fill (getU32 r "m") false (getAddr r "by") (getUp r "by") (parseIds (getStr r "ids"))
+      ((parseCoinList (getStr r "t")).take 1))
   | "commit" :: r => some (.commit (getU32 r "m") (getAddr r "o") (getNat r "a"))
   | "release" :: r => some (.release (getU32 r "m") (getAddr r "o") (getNat r "a") (getAddr r "by"))
   | "pay" :: r => some (.pay { source := getAddr r "s", srcAmt := getNat r "a", target := getAddr r "t",
@@ -581,6 +599,8 @@ def checkFrame (old new : Store) (ws : List String) (res : String) : Option Stri
      | "pay" :: _ | "ask" :: _ | "bid" :: _ => checkCreated old new
      -- an accepted governance closure: the documented effect, on the dump after it
      | "close" :: r => checkClosed new (getU32 r "m")
+     -- an accepted user settlement: every listed order is gone, nothing else changed
+     | "fillbids" :: r | "fillasks" :: r => checkFilled old new (parseIds (getStr r "ids"))
      | _ => none)
   else if res.startsWith "err" then
     (if old = new then none else some "rejected_changed_state")
